@@ -85,6 +85,19 @@ class Translator:
             if isinstance(v, str):
                 return '[' + '; '.join(str(ord(c)) for c in v) + ']', SEQ
             raise Unsupported(f'constant {v!r}')
+        if isinstance(e, ast.JoinedStr):
+            parts = []
+            for v in e.values:
+                if isinstance(v, ast.Constant) and isinstance(v.value, str):
+                    parts.append('[' + '; '.join(str(ord(c)) for c in v.value) + ']')
+                elif isinstance(v, ast.FormattedValue) and v.conversion == -1 and v.format_spec is None:
+                    t, ty = self.expr(v.value, cx)
+                    if ty != SEQ:
+                        raise Unsupported('f-string field that is not a str')
+                    parts.append(t)
+                else:
+                    raise Unsupported('f-string form')
+            return '(' + ' ++ '.join(parts) + ')', SEQ
         if isinstance(e, ast.Name):
             if e.id in cx.env:
                 return self.vname(e.id), cx.env[e.id]
@@ -272,6 +285,17 @@ class Translator:
             # staticmethod via self / class name
             if isinstance(f.value, ast.Name) and f.value.id in ('self', 'cls') and f.attr in cx.funcs:
                 return self.known_call(cx.funcs[f.attr], args, cx)
+            if f.attr == 'digest' and not args and isinstance(f.value, ast.Call) and isinstance(f.value.func, ast.Name) \
+                    and f.value.func.id == 'sha256' and len(f.value.args) == 1:
+                a, ta = self.expr(f.value.args[0], cx)
+                if ta != SEQ:
+                    raise Unsupported('sha256 of non-bytes')
+                return f'(sha256 {a})', SEQ
+            if f.attr == 'encode' and len(args) == 1 and isinstance(args[0], ast.Constant) and args[0].value == 'utf-16le':
+                a, ta = self.expr(f.value, cx)
+                if ta != SEQ:
+                    raise Unsupported('encode of non-str')
+                return f'(utf16le_encode {a})', SEQ
             if f.attr == 'join' and isinstance(f.value, ast.Constant) and f.value.value == b'' and len(args) == 1:
                 cx.want_seqlist = True
                 try:
@@ -512,6 +536,8 @@ class Translator:
             body = self.block(node.body, cx, fall)
             rtype = cx.rettype
         ptxt = ' '.join(f'({n} : {self.coqty(ty)})' for n, ty in params)
+        if '(sha256 ' in body:
+            ptxt = '(sha256 : list Z -> list Z) ' + ptxt
         needs_lower = '(lower ' in body
         if needs_lower:
             ptxt = '(lower : list Z -> list Z) ' + ptxt
